@@ -7,7 +7,7 @@ from report import Reporter
 import features
 
 
-def run_property(pid, cases_fn, tier, replay, rule, assumptions, nontrivial=None, post=None, budget=200000):
+def run_property(pid, cases_fn, tier, replay, rule, assumptions, nontrivial=None, post=None, budget=200000, extra=None):
     rep = Reporter(pid, tier, "model_checking")
     pool = Pool()
     if replay:
@@ -36,13 +36,14 @@ def run_property(pid, cases_fn, tier, replay, rule, assumptions, nontrivial=None
             rep.violation(describe(c), features.of_case(c), name=fam)
     if post:
         post(cases, rep, pool)
+    ex = extra(rep, pool, tier) if (extra and not replay) else {}
     samples = []
     for c in cases[:: max(1, len(cases) // 4)][:4]:
         samples.append({"family": c["fam"], "text": c["text"], "observed_out": text_of(c["obs"]["out"]),
                         "observed_status": c["obs"]["status"], "verdict": c["verdict"]})
     coverage = {
-        "states": cr.states, "transitions": cr.transitions,
-        "traces_validated_against_impl": n["agree"] + n["mismatch"],
+        "states": cr.states + ex.get("states", 0), "transitions": cr.transitions + ex.get("transitions", 0),
+        "traces_validated_against_impl": n["agree"] + n["mismatch"] + ex.get("validated", 0),
         "samples": samples,
         "evaluations": len(cases), "distinct_nontrivial": len(nt),
         "rule": rule,
@@ -52,6 +53,8 @@ def run_property(pid, cases_fn, tier, replay, rule, assumptions, nontrivial=None
         "checker_cmd": cr.cmds[0] if cr.cmds else "",
         "exhaustive": False,
     }
+    if ex.get("info"):
+        coverage.update(ex["info"])
     if replay:
         for c in cases:
             print("replay verdict:", c["verdict"])
